@@ -78,6 +78,11 @@ type SrvParams struct {
 	// RedirNoPort: RedirAddr names a host only; the redirect target's port is then
 	// the port the peer connected to
 	RedirNoPort bool
+	// PluginMode (with RealMain): ck-server is started the way Shadowsocks starts
+	// a plugin - no command line; SS_PLUGIN_OPTIONS names the configuration,
+	// SS_REMOTE_HOST/PORT the address to bind, SS_LOCAL_HOST/PORT the
+	// shadowsocks server, which becomes the "shadowsocks" entry of the ProxyBook
+	PluginMode bool
 	// ProxyBook: method name -> [network, address]
 	ProxyBook map[string][]string
 	NBypass   int
@@ -144,6 +149,32 @@ func NewSrvWorld(c *Ctx, p SrvParams) *SrvWorld {
 		dir := scratchDir()
 		w.cleanups = append(w.cleanups, func() { os.RemoveAll(dir) })
 		cfg := filepath.Join(dir, "ckserver.json")
+		args := []string{"ck-server", "-c", cfg, "-verbosity", "panic"}
+		if p.PluginMode {
+			ss := p.ProxyBook["shadowsocks"]
+			host, port, _ := net.SplitHostPort(ss[1])
+			bh, bp, _ := net.SplitHostPort(p.BindAddrs[0])
+			env := map[string]string{"SS_LOCAL_HOST": host, "SS_LOCAL_PORT": port, "SS_REMOTE_HOST": bh, "SS_REMOTE_PORT": bp, "SS_PLUGIN_OPTIONS": cfg}
+			for k, v := range env {
+				os.Setenv(k, v)
+			}
+			w.cleanups = append(w.cleanups, func() {
+				for k := range env {
+					os.Unsetenv(k)
+				}
+			})
+			// the configuration itself names neither the bind address nor shadowsocks
+			book := map[string][]string{"other": {"tcp", "10.0.0.3:9999"}}
+			for k, v := range p.ProxyBook {
+				if k != "shadowsocks" {
+					book[k] = v
+				}
+			}
+			raw.ProxyBook, raw.BindAddr = book, nil
+			p.BindAddrs = p.BindAddrs[:1]
+			args = []string{"ck-server"}
+			c.Probe("ck_server_plugin_mode")
+		}
 		b, _ := json.Marshal(raw)
 		os.WriteFile(cfg, b, 0o600)
 		listening := 0
@@ -173,7 +204,7 @@ func NewSrvWorld(c *Ctx, p SrvParams) *SrvWorld {
 					w.Exit = fe.Msg
 				}
 			}()
-			os.Args = []string{"ck-server", "-c", cfg, "-verbosity", "panic"}
+			os.Args = args
 			flag.CommandLine = flag.NewFlagSet("ck-server", flag.ContinueOnError)
 			ckserver.Main()
 		})
